@@ -62,6 +62,8 @@ pub struct WalkReport {
     pub objects: Vec<(usize, u64)>,
     /// addresses of reached objects which had already been swept (dangling pointers)
     pub freed: Vec<usize>,
+    /// number of thread objects reached (not descended into)
+    pub threads: usize,
 }
 
 struct Walk {
@@ -75,11 +77,18 @@ thread_local! {
 
 /// Called by `Gc::mark`. `None` when no walk is active on this OS thread, otherwise whether the
 /// object was reached before (then it must not be traversed again)
-pub fn visit(addr: usize, owner: u64, freed: bool) -> Option<bool> {
+pub fn visit(addr: usize, owner: u64, freed: bool, is_thread: bool) -> Option<bool> {
     WALK.with(|w| {
         let mut w = w.borrow_mut();
         let w = w.as_mut()?;
         if !w.seen.insert(addr) {
+            return Some(true);
+        }
+        if is_thread && !freed {
+            // A thread object is the one pointer a heap may hold into the heap of a child (the
+            // parent keeps track of its children); what the thread owns is checked by walking
+            // that thread itself
+            w.report.threads += 1;
             return Some(true);
         }
         w.report.reached += 1;
